@@ -84,7 +84,6 @@ Proof.
     destruct DEC as [[E1 E2]|NE].
     + assert (Eq : q' = q) by (destruct q, q'; cbn in *; congruence). subst q'. exact SQ.
     + apply (slot_ok_frame m m' (Rword (fst q) (snd q)) pads objs); auto.
-      * apply (hi_tags _ _ _ H).
       * intros k Hk [X1 X2]. lia.
       * intros r Hr k Hk [X1 X2].
         pose proof (hi_cross _ _ _ H _ _ Rq1 Hr) as D. pose proof (hi_pads _ _ _ H r Hr) as Pz.
@@ -95,9 +94,6 @@ Proof.
 Qed.
 
 (* the two inline encodings of writePtr: the null word and the empty struct (offset -1) *)
-Definition empty_struct_word : Z := 4294967292.   (* rawStructPointer (-1) (mkOS 0 0) *)
-Lemma empty_struct_word_eq : rawStructPointer (-1) (mkOS 0 0) = Some empty_struct_word.
-Proof. reflexivity. Qed.
 
 Lemma hinv_write_inline m objs pads m' q v :
   hinv m objs pads -> In q ((0, 0) :: flat_map slots objs) ->
@@ -121,18 +117,7 @@ Proof.
     assert (RD : word_at (bm_data m') (fst q) (snd q) = Some v).
     { apply word_at_mem; [rewrite N; exact Q1| |pose proof (hi_small _ _ _ H (fst q)); unfold maxSegmentSize in *; lia].
       apply (wrote_word_back m m'); auto. pose proof (hi_small _ _ _ H (fst q)). unfold maxSegmentSize in *. lia. }
-    destruct Hv as [-> | ->].
-    + rewrite app_nil_r. apply null_slot_ok. exact RD.
-    + exists (GStruct (fst q) (snd q) 0 0), [mkReg (fst q) (snd q) 0]. split; [|split; [exact I|]].
-      * unfold resolve_ptr. rewrite RD. unfold empty_struct_word.
-        change (4294967292 =? 0) with false. change (f_A 4294967292 =? 3) with false. change (f_A 4294967292 =? 2) with false. cbv iota.
-        unfold decode_obj. cbv zeta. change (f_A 4294967292 =? 0) with true. cbv iota.
-        change (f_off 4294967292) with (-1). change (f_dw 4294967292) with 0. change (f_pc 4294967292) with 0.
-        replace (snd q + 8 + 8 * -1) with (snd q) by lia. change (8 * (0 + 0)) with 0.
-        rewrite in_seg_intro; [reflexivity| | | | |]; try lia.
-        -- rewrite zlen_bm, N. exact Q1.
-        -- rewrite seg_len_bm. rewrite (wrote_len _ _ _ _ _ (fst q) W) by lia. lia.
-      * right. exists [], (mkReg (fst q) (snd q) 0). split; [reflexivity|]. split; [intros x []|left; split; [reflexivity|exact I]].
+    rewrite app_nil_r. destruct Hv as [-> | ->]; [left; exact RD|right; left; exact RD].
 Qed.
 
 (* ------------------------------------------------------------------ handles and table objects *)
